@@ -617,8 +617,10 @@ def num(s):
         return "?" + s
 
 
-def rows_of(report, out):
-    """canonical rows of one output of op run; None when the output is not OK"""
+def rows_of(report, out, eqa=None):
+    """canonical rows of one output of op run; None when the output is not OK.  Equity: the postings to the configured
+    equity account `eqa` (the balancing posting, and the account's own carried row when it is a journal account) are left
+    out here; `oracle_rows_from_postings` judges them exactly"""
     o = out.get(report)
     if not o or o.get("r") != "OK":
         return None
@@ -633,7 +635,7 @@ def rows_of(report, out):
         if gs is None:
             return []
         return [(g["title"], [(r[1], num(r[2]), num(r[3]), r[0]) for r in g["rows"]]) for g in gs]
-    return [(r[0], r[1], num(r[2])) for r in parse_equity_export(o["v"])]
+    return [(r[0], r[1], num(r[2])) for r in parse_equity_export(o["v"], eqa or EQUITY_ACCOUNT)]
 
 
 def filter_rows(report, rows, pred):
@@ -734,6 +736,10 @@ def oracle_equity_balancing(case, impl):
     if txs is None:
         return {"sig": "equity-shape", "what": "equity export has an unexpected line shape: %r" % o["v"][:300]}
     eqa = case["cfg"].get("equity_account", EQUITY_ACCOUNT)
+    if eqa in (case.get("names") or []):
+        # the equity account is itself an account of the journal: a posting to it may be its own carried row;
+        # `oracle_rows_from_postings` judges those exports posting by posting
+        return None
     try:
         for hdr, _, posts in txs:
             listed = [p for p in posts if p[0] != eqa]
@@ -750,6 +756,77 @@ def oracle_equity_balancing(case, impl):
                 return {"sig": "equity-balancing", "what": "%r: listed postings add to %s, balancing postings %s" % (hdr, tot, bal)}
     except (ValueError, ZeroDivisionError):
         return {"sig": "equity-shape", "what": "equity export amount cannot be parsed: %r" % o["v"][:300]}
+    return None
+
+
+def py_pred(case, rep):
+    """the whole-name selector of report `rep` as a python predicate; None when python `re` cannot judge it"""
+    pats = eff_sel(case["cfg"], rep)
+    if not pats:
+        return lambda acct: True
+    if any(case["perl"].get(p) for p in pats) and not all(n.isascii() for n in case["names"]):
+        return None
+    cres = [re.compile(case["py"][p]) for p in pats]
+    return lambda acct: any(c.fullmatch(acct) is not None for c in cres)
+
+
+def oracle_rows_from_postings(case, impl):
+    """rows judged against the journal itself, not against the unselected run of the same program:
+    * register: every posting of the journal to a selected account is one row (so two postings of one transaction to
+      the same account are two rows), per account;
+    * equity: per commodity the postings are exactly the selected accounts with a non-zero own sum in the *balance
+      report of the unselected run* (the configured equity account included when it is one of them), in that order,
+      followed by the balancing posting iff they do not cancel."""
+    txns = case.get("txns")
+    if txns is None:
+        return None
+    # -- register
+    pred = py_pred(case, "register")
+    o = out_of(impl["sel"], "register")
+    if pred is not None and o.get("r") == "OK":
+        es = parse_register_report(o["v"])
+        if es is not None:
+            want = {}
+            for t in txns:
+                for p in t["posts"] + ([t["last"]] if t.get("last") else []):
+                    if pred(p["acct"]):
+                        want[p["acct"]] = want.get(p["acct"], 0) + 1
+            got = {}
+            for _, posts in es:
+                for p in posts:
+                    got[p[0]] = got.get(p[0], 0) + 1
+            if got != want:
+                diff = {a: (got.get(a, 0), want.get(a, 0)) for a in set(got) | set(want) if got.get(a, 0) != want.get(a, 0)}
+                return {"sig": "register-rows-vs-postings",
+                        "what": "register with selectors %r: rows per account differ from the journal's postings (listed, posted): %s" % (
+                            eff_sel(case["cfg"], "register"), dict(sorted(diff.items())[:6]))}
+    # -- equity
+    pred = py_pred(case, "equity")
+    o = out_of(impl["sel"], "equity")
+    bal = out_of(impl["all"], "balance")
+    if pred is not None and o.get("r") == "OK" and bal.get("r") == "OK":
+        pr = common.parse_balance_report(bal["v"])
+        got = parse_equity_txns(o["v"])
+        if pr is not None and got is not None:
+            eqa = case["cfg"].get("equity_account", EQUITY_ACCOUNT)
+            exp = []
+            try:
+                for c in sorted({r[0] for r in pr[0]}):
+                    listed = [(r[1], F(r[2])) for r in pr[0] if r[0] == c and F(r[2]) != 0 and pred(r[1])]
+                    if not listed:
+                        continue
+                    tot = sum((v for _, v in listed), F(0))
+                    posts = [(a, v, c) for a, v in listed] + ([(eqa, -tot, c)] if tot != 0 else [])
+                    exp.append(posts)
+                gotp = [[(p[0], F(p[1]), p[2]) for p in posts] for _, _, posts in got]
+            except (ValueError, ZeroDivisionError):
+                return None
+            if gotp != exp:
+                return {"sig": "equity-rows-vs-balance",
+                        "what": "equity with selectors %r, equity account %r: postings %s; the selected non-zero rows of the balance "
+                                "report (plus balancing) are %s" % (eff_sel(case["cfg"], "equity"), eqa,
+                                                                     [[(a, str(v), c) for a, v, c in t] for t in gotp][:4],
+                                                                     [[(a, str(v), c) for a, v, c in t] for t in exp][:4])}
     return None
 
 
@@ -861,7 +938,7 @@ DOTSTAR = ("star", ("dot",), False)
 class SelRun:
     fam = "selrun"
     # row checks of the oracle / the tie beyond "which rows are listed": figures, deltas, balancing postings
-    extra_oracles = [oracle_deltas, oracle_equity_balancing]
+    extra_oracles = [oracle_deltas, oracle_equity_balancing, oracle_rows_from_postings]
     extra_compares = [cmp_balance, cmp_register, cmp_equity]
 
     def sel_pattern(self, rng, accounts):
@@ -1017,6 +1094,11 @@ class SelRun:
         cfg = {"equity_account": EQUITY_ACCOUNT}
         cfg.update(sels)
         accounts = sorted({p["acct"] for t in txns for p in t["posts"]} | {t["last"]["acct"] for t in txns if t.get("last")})
+        if accounts and rng.random() < 0.15:
+            # the configured equity account is itself an account of the journal (e.g. it carries last period's opening
+            # balances): when selected and non-zero it is a listed row like any other, next to the balancing posting
+            cfg["equity_account"] = rng.choice(accounts)
+            kind = kind + "+eqa-posted"
         names = set()
         for a in accounts:
             ps = a.split(":")
@@ -1147,10 +1229,11 @@ class SelRun:
             pred = pred_of(rep)
             if pred is None:
                 continue
-            base = rows_of(rep, impl["all"]["out"])
+            eqa = case["cfg"].get("equity_account", EQUITY_ACCOUNT)
+            base = rows_of(rep, impl["all"]["out"], eqa)
             if base is None:
                 return "%s output of the unselected run is not OK" % rep, compared
-            got = rows_of(rep, impl["sel"]["out"])
+            got = rows_of(rep, impl["sel"]["out"], eqa)
             if got is None:
                 return "%s report fails with selectors %r that %s accepts" % (rep, eff_sel(case["cfg"], rep), who), compared
             exp = filter_rows(rep, base, pred)
@@ -1227,7 +1310,8 @@ class SelRun:
         if impl.get("r") != "OK":
             return False
         for rep in REPORTS:
-            a, b = rows_of(rep, impl["sel"]["out"]), rows_of(rep, impl["all"]["out"])
+            eqa = case["cfg"].get("equity_account", EQUITY_ACCOUNT)
+            a, b = rows_of(rep, impl["sel"]["out"], eqa), rows_of(rep, impl["all"]["out"], eqa)
             if a and b and 0 < len(row_accounts(rep, a)) < len(row_accounts(rep, b)):
                 return True
         return False
